@@ -167,11 +167,14 @@ func parseArgs(argStr string) []string {
 	for _, ch := range strings.TrimSpace(argStr) {
 		switch {
 		case (ch == '"' || ch == '\'') && !inQuote:
+			// the quotes stay on the argument: resolveArgument tells a string literal by them
 			inQuote = true
 			quoteChar = ch
+			current.WriteRune(ch)
 		case ch == quoteChar && inQuote:
 			inQuote = false
 			quoteChar = 0
+			current.WriteRune(ch)
 		case ch == ',' && !inQuote:
 			if current.Len() > 0 {
 				args = append(args, strings.TrimSpace(current.String()))
